@@ -108,6 +108,8 @@ def observe_state(ob, d):
     return dict(tk=[int(x) for x in d._time_keep], fk=[int(x) for x in d._freq_keep], bk=[int(x) for x in d._corrprod_keep],
                 keys=list(d._selection.keys()), dumps=[int(x) for x in d.dumps], channels=[int(x) for x in d.channels],
                 cps=[(str(a), str(b)) for a, b in d.corr_products], shape=tuple(int(x) for x in d.shape),
+                scans=[int(x) for x in d.scan_indices], compscans=[int(x) for x in d.compscan_indices],
+                targets=[int(x) for x in d.target_indices],
                 nts=len(d.timestamps), wk=d._weights_keep if ob.compare_wf else None,
                 flk=d._flags_keep if ob.compare_wf else None)
 
@@ -183,7 +185,8 @@ def compare_state(ctx, ob, got, ms, what, sg, case, kind='tie'):
 def check_public(ctx, ob, got, tk, fk, bk, what, sg, case):
     """public observables implied by three masks"""
     exp = c02.expected_from_masks(ob, tk, fk, bk)
-    bad = [k for k in ('dumps', 'channels', 'cps', 'shape', 'nts') if got[k] != exp[k]]
+    # scan_indices / compscan_indices / target_indices: sorted, duplicate-free, exactly the indices of the dumps kept
+    bad = [k for k in ('dumps', 'channels', 'cps', 'shape', 'nts', 'scans', 'compscans', 'targets') if got[k] != exp[k]]
     if bad:
         ctx.disagree(sg + ':' + what + ':' + ','.join(bad), case, {k: got[k] for k in bad}, {k: exp[k] for k in bad},
                      'selection %s differs from the statement' % what)
@@ -315,6 +318,236 @@ def run_iter_case(ctx, ob, history, mode, cid, note=True, extra=None, sig_prefix
         ctx.note_case(cid, nontrivial=len(ys) >= 2 and nsel < len(before['tk']),
                       sample=dict(mode=[outer, inner], history=case['history'], indices=[y['index'] for y in ys],
                                   dumps_before=before['dumps']))
+
+
+# ---------------------------------------------------------------------------------------------------------------
+# (d) loop bodies that call select() themselves, abandoned iterations (break / close / garbage collection)
+
+BODY_CLASSES = ['none', 'fb', 'fb', 'time']
+ABANDON = ['break', 'close', 'del', 'hold']
+
+
+def gen_body(rng, ob, cls):
+    """select() calls issued by the loop body at every yield.  'fb': no time keyword (theorem C03_selecting_body
+    applies: partition and time restore hold); 'time': one call adds a time criterion with reset='' (outside the
+    domain of the property: tie only)."""
+    calls = []
+    if cls == 'none':
+        return calls
+    for _ in range(rng.choice([1, 1, 2])):
+        if cls == 'fb':
+            keys = rng.sample(c02.FREQ + c02.CORR + ['flags', 'weights'], rng.choice([1, 1, 2]))
+            reset = rng.choice(['', '', '', None, 'F', 'B', 'FB', 'auto'])
+        else:
+            keys = [rng.choice(c02.TIME)]
+            reset = ''
+        call = []
+        for k in keys:
+            v, w, f = c02.gen_criterion(rng, ob, k)
+            call.append((k, v, w, f))
+        if reset is not None:
+            call.append(('reset', reset, [10, c02.codes(reset)], 'reset'))
+        calls.append(call)
+    return calls
+
+
+def run_body_impl(ob, d, outer, body, brk, how):
+    """The real generator with a loop body issuing `body` at every yield; brk = None: to exhaustion, else the loop
+    is left while item number brk is current (break; then the generator is closed / deleted / kept alive)."""
+    import gc
+    ys = []
+    name_id = {'scans': state_id, 'compscans': label_id}
+    abandoned = None
+    gen = getattr(d, outer)()
+    for i, (idx, name, tgt) in enumerate(gen):
+        y = dict(index=int(idx), name=name_id[outer](name), target=target_index(d, tgt), st=observe_state(ob, d))
+        if brk is not None and i == brk:
+            abandoned = y
+            break
+        for call in body:
+            d.select(**c02.py_call(call))
+        y['after_body'] = observe_state(ob, d)
+        ys.append(y)
+    if abandoned is not None:
+        if how == 'close':
+            gen.close()
+        elif how in ('del', 'break'):
+            del gen
+            gc.collect()
+        abandoned['left'] = observe_state(ob, d)
+    return ys, abandoned, observe_state(ob, d), (gen if how == 'hold' and abandoned is not None else None)
+
+
+def body_sig(outer, cls, brk, symptom):
+    return 'body=%s;iter=%s;%ssymptom=%s' % (cls, outer, 'abandoned;' if brk is not None else '', symptom)
+
+
+def run_body_case(ctx, ob, history, outer, cls, body, brk, how, cid, note=True, sig_prefix=''):
+    key = outer
+    st_w, lb_w = obs_cds(ob.d)
+    payload = [ob.wire(), st_w, lb_w, [c02.wire_call(c) for c in history], WHICH[outer],
+               [c02.wire_call(c) for c in body], -1 if brk is None else brk]
+    out = ctx.model([[34, payload]])[0]
+    if out == [-999] or len(out) != 4:
+        ctx.count('body_model_error')       # e.g. the last good model binary predates wire_34
+        return
+    statuses, ms0, model, spec = out
+    case = dict(cid=cid, iter=outer, body_class=cls, body=[c02.describe_call(c) for c in body], break_at=brk, how=how,
+                obs=getattr(ob, 'spec', None), history=[c02.describe_call(c) for c in history], statuses=statuses)
+
+    def bs(sym):
+        return sig_prefix + body_sig(outer, cls, brk, sym)
+    d = ob.fresh()
+    with warnings.catch_warnings():
+        warnings.simplefilter('ignore')
+        for call, stt in zip(history, statuses):
+            if stt != 0:
+                continue
+            try:
+                d.select(**c02.py_call(call))
+            except Exception:      # noqa: BLE001 - C02's business
+                ctx.count('prior_history_raised')
+                return
+        before = observe_state(ob, d)
+        if not compare_state(ctx, ob, before, ms0, 'before', bs('prior_history'), case):
+            return
+        if model[0] != 0:
+            try:
+                run_body_impl(ob, d, outer, body, brk, how)
+            except Exception:      # noqa: BLE001
+                ctx.count('body_iteration_raised_in_both')
+                return
+            ctx.disagree(bs('model_raises_impl_not'), case, 'ok', model, 'the model predicts an exception', kind='tie')
+            return
+        try:
+            ys, ab, after, held = run_body_impl(ob, d, outer, body, brk, how)
+        except Exception as e:      # noqa: BLE001
+            ctx.disagree(bs('raises'), case, repr(e), 'ok', 'the generator / the body raised where the model does not')
+            return
+    ctx.traces_validated += 1
+    ctx.count('body=%s' % cls)
+    ctx.count('abandoned=%s' % (how if brk is not None else 'no'))
+    m_ys, m_ab, m_final = (model[1], None, model[2]) if brk is None else (model[1], model[2], model[3])
+    # ---- tie: complete iterations
+    if [y['index'] for y in ys] != [m[0] for m in m_ys]:
+        ctx.disagree(bs('indices_vs_model'), case, [y['index'] for y in ys], [m[0] for m in m_ys],
+                     'indices of the complete iterations differ from the model', kind='tie')
+        return
+    ok = True
+    for y, m in zip(ys, m_ys):
+        if (y['name'], y['target']) != (m[1], m[2]):
+            ctx.disagree(bs('values_vs_model'), case, [y['name'], y['target']], [m[1], m[2]],
+                         'yielded state/label/target differ from the model', kind='tie')
+            ok = False
+        ok &= compare_state(ctx, ob, y['st'], m[3], 'yield', bs(''), case)
+        ok &= compare_state(ctx, ob, y['after_body'], m[4], 'after_body', bs(''), case)
+    # ---- property (time partition; holds for every body that adds no time criterion: C03_selecting_body)
+    spec_of = {sp[0]: sp for sp in spec}
+    if cls != 'time':
+        exp_idx = [sp[0] for sp in spec][:len(ys)] if brk is not None else [sp[0] for sp in spec]
+        if [y['index'] for y in ys] != exp_idx:
+            ctx.disagree(bs('indices'), case, [y['index'] for y in ys], exp_idx,
+                         'the items visited are not the selected ones, once each, in increasing order')
+            ok = False
+        for y in ys:
+            sp = spec_of.get(y['index'])
+            if sp is None or y['st']['tk'] != sp[4]:
+                ctx.disagree(bs('dumps'), case, y['st']['tk'], sp[4] if sp else None,
+                             'dumps exposed during a yield are not the prior selection restricted to the item '
+                             '(whatever the earlier loop bodies selected)')
+                ok = False
+                continue
+            ok &= check_public(ctx, ob, y['st'], sp[4], y['st']['fk'], y['st']['bk'], 'yield', bs(''), case)
+            if y['name'] != sp[1]:
+                ctx.disagree(bs('name'), case, y['name'], sp[1], 'yielded state/label is not that of the dumps shown')
+                ok = False
+            if y['target'] not in sp[3]:
+                ctx.disagree(bs('target_not_of_dumps'), case, y['target'], sp[3], 'yielded target is not a target of the dumps shown')
+                ok = False
+    if brk is None or ab is None:
+        # ---- exhaustion
+        if brk is not None and m_ab:
+            ctx.disagree(bs('model_abandons_impl_exhausts'), case, None, m_ab, 'the model has an item number %d' % brk, kind='tie')
+            return
+        ok &= compare_state(ctx, ob, after, m_final, 'after', bs(''), case)
+        if cls != 'time':
+            bad = [k for k in ('tk', 'dumps', 'nts', 'scans', 'compscans', 'targets') if after[k] != before[k]]
+            tkeys = lambda st: sorted(k for k in st['keys'] if k in c02.TIME)     # noqa: E731
+            if tkeys(after) != tkeys(before):
+                bad.append('time_keys')
+            if cls == 'none':
+                bad += [k for k in ('fk', 'bk', 'channels', 'cps', 'shape', 'wk', 'flk') if after[k] != before[k]]
+            if bad:
+                ctx.disagree(bs('restore:' + ','.join(bad)), case, {k: after.get(k) for k in bad}, {k: before.get(k) for k in bad},
+                             'time selection after exhaustion differs from the selection before iteration')
+        elif after['tk'] != before['tk']:
+            ctx.count('time_selecting_body_leaked_past_exhaustion')
+    else:
+        # ---- abandoned while item number brk was current
+        if not m_ab:
+            ctx.disagree(bs('impl_abandons_model_exhausts'), case, ab['index'], None, 'the model has no item number %d' % brk, kind='tie')
+            return
+        if [ab['index'], ab['name'], ab['target']] != m_ab[:3]:
+            ctx.disagree(bs('abandoned_item_vs_model'), case, [ab['index'], ab['name'], ab['target']], m_ab[:3],
+                         'the item current at the break differs from the model', kind='tie')
+            ok = False
+        ok &= compare_state(ctx, ob, ab['left'], m_ab[3], 'left', bs(''), case)
+        ok &= compare_state(ctx, ob, after, m_final, 'after', bs(''), case)
+        if cls != 'time':
+            sp = spec_of.get(ab['index'])
+            exp_idx = [s_[0] for s_ in spec]
+            if sp is None or brk >= len(exp_idx) or exp_idx[brk] != ab['index']:
+                ctx.disagree(bs('abandoned_index'), case, ab['index'], exp_idx, 'the item current at the break is not item number %d' % brk)
+            elif ab['left']['tk'] != sp[4]:
+                # "after each iteration the data set will reflect the scan selection": nothing runs after the yield
+                ctx.disagree(bs('left:tk'), case, ab['left']['tk'], sp[4],
+                             'the selection left by an abandoned iteration is not the prior selection restricted to the current item')
+            else:
+                check_public(ctx, ob, ab['left'], sp[4], ab['left']['fk'], ab['left']['bk'], 'left', bs(''), case)
+                if cls == 'none':
+                    bad = [k for k in ('fk', 'bk', 'wk', 'flk') if ab['left'][k] != before[k]]
+                    if sorted(ab['left']['keys']) != sorted(set(before['keys']) | {key}):
+                        bad.append('keys')
+                    if bad:
+                        ctx.disagree(bs('left:' + ','.join(bad)), case, {k: ab['left'].get(k) for k in bad},
+                                     {k: before.get(k) for k in bad},
+                                     'an abandoned iteration changed more than the time selection and _selection[%r]' % key)
+                # picking the work up again: the same generator now visits the abandoned item alone and restores the
+                # abandoned selection (C03_abandoned_then_iterate)
+                if held is None and cls == 'none':
+                    with warnings.catch_warnings():
+                        warnings.simplefilter('ignore')
+                        try:
+                            again = [int(i) for i, n_, t_ in getattr(d, outer)()]
+                            st2 = observe_state(ob, d)
+                        except Exception as e:      # noqa: BLE001
+                            again, st2 = repr(e), None
+                    if again != [ab['index']] or any(st2[k] != ab['left'][k] for k in ('tk', 'fk', 'bk', 'dumps', 'scans')) \
+                            or sorted(st2['keys']) != sorted(ab['left']['keys']):
+                        ctx.disagree(bs('iterate_after_break'), case, [again, st2 and st2['tk']], [[ab['index']], ab['left']['tk']],
+                                     'iterating again after a break does not visit the abandoned item alone / does not '
+                                     'restore the abandoned selection')
+    if held is not None:
+        held.close()
+    if note:
+        ctx.note_case(cid, nontrivial=len(spec) >= 2 and (cls != 'none' or brk is not None),
+                      sample=dict(iter=outer, body=case['body'], break_at=brk, how=how, history=case['history'],
+                                  indices=[y['index'] for y in ys]))
+
+
+def body_cases(bseed, n):
+    rng = random.Random(bseed)
+    ob = c02.Observation(c02.gen_obs(rng))
+    out = []
+    for j in range(n):
+        hist = stack_history(rng, ob, rng.choice([0, 0, 1, 1, 2, 3]))
+        outer = rng.choice(['scans', 'compscans'])
+        cls = rng.choice(BODY_CLASSES)
+        body = gen_body(rng, ob, cls)
+        brk = rng.choice([None, None, 0, 0, 1, 2, 5]) if cls != 'none' else rng.choice([0, 0, 1, 1, 2, 3, 7])
+        how = rng.choice(ABANDON)
+        out.append((hist, outer, cls, body, brk, how))
+    return ob, out
 
 
 # ---------------------------------------------------------------------------------------------------------------
@@ -467,6 +700,26 @@ SENSORS = ['Observation/scan_state', 'Observation/scan_index', 'Observation/labe
            'Observation/target', 'Observation/target_index']
 
 
+_SEG_PARAMS = {}
+
+
+def seg_params(fmt):
+    """ids of the strings the pipeline of this format class tests for, read from its source by the translator item
+    (so that an edited string reaches the model as the id of the NEW string, or of no string at all)"""
+    if fmt not in _SEG_PARAMS:
+        from vh import core
+        from vh.items import c03 as items
+        try:
+            c = items.segmentation_constants(core.REPO, 'v%d' % fmt)
+        except Exception:      # noqa: BLE001 - translator refuses the source: broken tie, search with the usual strings
+            c = dict(slew_value='slew', stop_value='stop', label_removed='', label_add_value='', nothing_value=NOTHING)
+        sid = lambda v: STATES.index(v) if v in STATES else -2      # noqa: E731
+        lid = lambda v: LABELS.index(v) if v in LABELS else -2      # noqa: E731
+        _SEG_PARAMS[fmt] = [sid(c['slew_value']), sid(c['stop_value']) if fmt == 4 else sid('stop'), lid(c['label_removed']),
+                            90 if (fmt != 3 or c['nothing_value'] == NOTHING) else -2, lid(c['label_add_value'])]
+    return _SEG_PARAMS[fmt]
+
+
 def py_numbered(l):
     return (not l) or (l[0] == 0 and all(b in (a, a + 1) for a, b in zip(l, l[1:])))
 
@@ -485,7 +738,7 @@ def run_seg_case(ctx, ev, cid, note=True):
         d = rs.d
         T = ev['T']
         ids = [state_id, int, label_id, int, rs.target_id, int]
-        payload = [fmt, [state_id('slew'), state_id('stop'), label_id(''), 90], T,
+        payload = [fmt, seg_params(fmt), T,
                    series_wire(rs.act, state_id), series_wire(rs.lab, label_id), series_wire(rs.tgt, rs.target_id)]
         out = ctx.model([[31, payload]])[0]
         sgn = 'seg;fmt=v%d;' % fmt
@@ -620,6 +873,17 @@ def run_real(ctx, rseed, n_iter, only=None, note=True):
             mode = MODES[rrng.randrange(len(MODES))]
             if only is None or only == j:
                 run_iter_case(ctx, ob, hist, mode, ('real', rseed, n_iter, j), note=note)
+        if n_iter:
+            # one selecting-body / abandoned-iteration case on the real format class
+            hist = stack_history(rrng, ob, rrng.choice([0, 1, 2]))
+            outer = rrng.choice(['scans', 'compscans'])
+            cls = rrng.choice(BODY_CLASSES)
+            body = gen_body(rrng, ob, cls)
+            brk = rrng.choice([None, 0, 1, 2])
+            how = rrng.choice(ABANDON)
+            if only is None or only == n_iter:
+                run_body_case(ctx, ob, hist, outer, cls, body, brk, how, ('real', rseed, n_iter, n_iter), note=note,
+                              sig_prefix='real;')
     finally:
         rs.close()
 
@@ -955,6 +1219,13 @@ def run(ctx):
         for j, (hist, mode) in enumerate(cases):
             run_iter_case(ctx, ob, hist, mode, ('harness', oseed, nhist, j))
         ctx.count('observations')
+    # (d) selecting bodies and abandoned iterations
+    nbody = ctx.scale(25, 300)
+    for _ in range(nbody):
+        bseed = rng.randrange(1 << 30)
+        ob, cases = body_cases(bseed, 8)
+        for j, (hist, outer, cls, body, brk, how) in enumerate(cases):
+            run_body_case(ctx, ob, hist, outer, cls, body, brk, how, ('body', bseed, 8, j))
     # (b) real format classes: segmentation + iterators
     nreal = ctx.scale(90, 1200)
     for _ in range(nreal):
@@ -1008,6 +1279,11 @@ def replay(ctx, doc):
         _, oseed, nhist, j = cid
         ob, cases = harness_cases(oseed, nhist)
         run_iter_case(ctx, ob, cases[j][0], cases[j][1], tuple(cid))
+    elif kind == 'body':
+        _, bseed, n, j = cid
+        ob, cases = body_cases(bseed, n)
+        hist, outer, cls, body, brk, how = cases[j]
+        run_body_case(ctx, ob, hist, outer, cls, body, brk, how, tuple(cid))
     elif kind == 'seg':
         run_real(ctx, cid[1], 0)
     elif kind == 'real':
